@@ -238,6 +238,21 @@ def prove(ctx, prop_file, gen_units):
         return res
 
 
+def ensure_built(gen_units, targets):
+    """regenerate the given units and build the given .vo files (for in-check evaluations that run before the property's own build);
+    returns None when ready, else a short reason (translator refusal / build failure: both are reported by the proof step itself)"""
+    with BuildLock():
+        rep = regenerate(only=gen_units)
+        refused = {k: v["refused"] for k, v in rep.items() if not v["ok"]}
+        if refused:
+            return "translator refused: " + "; ".join(f"{k}: {v[:120]}" for k, v in refused.items())
+        ok, log = coq_make(targets)
+        if not ok:
+            f, line, msg, lemma = first_coq_error(log)
+            return f"build failed: {f}:{line} {msg[:160]}"
+    return None
+
+
 # --------------------------------------------------------------------------- verdict / evidence
 def known_findings():
     p = os.path.join(VERIF, "known_findings.json")
